@@ -6,7 +6,8 @@
      reported_hints_in_force     what inq_file_info reports after enddef is what begins used
      ibuf_pack_equiv / ibuf_unpack_equiv   the packing-buffer branch never changes the bytes
      swap_mode_equiv             in-place swap + swap back == swap in a copy
-     hash_sizes_ok_*             a hash-size hint of 0 is accepted (F9), any other value is sound
+     hash_sizes_positive         every accepted configuration has positive name-table sizes (the
+                                 pre-fix code, which accepted 0 - F9 -, is refuted: hash_sizes_old_refuted)
    No axioms. *)
 From Pnc Require Import Config Proofs_Disk Proofs_Lists.
 Require Import String.
@@ -591,8 +592,6 @@ Proof. split; [apply offsets_only_by_alignment|]; reflexivity. Qed.
 (* ================================================================== *)
 (* 6. reported hints are the ones in force                             *)
 (* ================================================================== *)
-Lemma key_neq : forall a b, bytes_eqb a b = false -> True. Proof. trivial. Qed.
-
 (* C10 reported_hints_in_force: after create (+ PNETCDF_HINTS) and enddef, the alignment values
    ncmpi_inq_file_info reports are exactly the ones passed to NC_begins, and the other hints are
    the fields of the configuration that the I/O paths consult *)
@@ -654,47 +653,47 @@ Proof.
 Qed.
 
 (* ================================================================== *)
-(* 7. hash sizes (F9)                                                  *)
+(* 7. hash sizes (F9, fixed in /repo: `<= 0` falls back to the default) *)
 (* ================================================================== *)
-(* the full statement: every accepted configuration has usable (positive) hash table sizes *)
-Definition hash_sizes_ok_full : Prop :=
-  forall user env hook safe np, hash_sizes_ok (fst (open_config user env hook safe np)) = true.
-
-(* refuted: a hint value of 0 passes the `< 0` test and becomes the table size; calloc(0) and
-   the mask (0 - 1) follow (ncmpio_util.c: `if (errno != 0 || hash_size < 0)`) *)
-Theorem hash_sizes_ok_refuted : ~ hash_sizes_ok_full.
+Lemma hash_hint_pos ui k dflt : 0 < dflt -> 0 < hash_hint ui k dflt.
 Proof.
-  intros H. specialize (H (Some [(k_hash_dim, B "0")]) None None None 1).
-  vm_compute in H. discriminate.
+  intros Hd. unfold hash_hint. destruct (uget ui k) as [v|]; [|lia].
+  destruct (atoi v <=? 0) eqn:E; lia.
 Qed.
 
-Definition hash_value_ok (ui : option info) (k : list byte) : Prop :=
-  match uget ui k with None => True | Some v => atoi v <> 0 end.
-
-Lemma hash_hint_pos ui k dflt : 0 < dflt -> hash_value_ok ui k -> 0 < hash_hint ui k dflt.
-Proof.
-  intros Hd H. unfold hash_hint, hash_value_ok in *. destruct (uget ui k) as [v|]; [|lia].
-  destruct (atoi v <? 0) eqn:E; lia.
-Qed.
-
-(* partial: as long as no hash-size hint parses to exactly 0 all four sizes are positive *)
-Theorem hash_sizes_ok_partial : forall user env hook safe np,
-  let ui := combine_env_hints user env in
-  hash_value_ok ui k_hash_dim -> hash_value_ok ui k_hash_var ->
-  hash_value_ok ui k_hash_gattr -> hash_value_ok ui k_hash_vattr ->
+(* every accepted configuration has usable (positive) hash table sizes, whatever the hint strings *)
+Theorem hash_sizes_positive : forall user env hook safe np,
   hash_sizes_ok (fst (open_config user env hook safe np)) = true.
 Proof.
-  intros user env hook safe np ui H1 H2 H3 H4.
-  unfold open_config, set_pnetcdf_hints. fold ui. destruct (swap_hint ui) as [sw swstr].
+  intros user env hook safe np.
+  unfold open_config, set_pnetcdf_hints. set (ui := combine_env_hints user env).
+  destruct (swap_hint ui) as [sw swstr].
   unfold hash_sizes_ok. cbn [fst c_hash_dim c_hash_var c_hash_gattr c_hash_vattr].
-  pose proof (hash_hint_pos ui k_hash_dim PNC_HSIZE_DIM ltac:(reflexivity) H1).
-  pose proof (hash_hint_pos ui k_hash_var PNC_HSIZE_VAR ltac:(reflexivity) H2).
-  pose proof (hash_hint_pos ui k_hash_gattr PNC_HSIZE_GATTR ltac:(reflexivity) H3).
-  pose proof (hash_hint_pos ui k_hash_vattr PNC_HSIZE_VATTR ltac:(reflexivity) H4).
+  pose proof (hash_hint_pos ui k_hash_dim PNC_HSIZE_DIM ltac:(reflexivity)).
+  pose proof (hash_hint_pos ui k_hash_var PNC_HSIZE_VAR ltac:(reflexivity)).
+  pose proof (hash_hint_pos ui k_hash_gattr PNC_HSIZE_GATTR ltac:(reflexivity)).
+  pose proof (hash_hint_pos ui k_hash_vattr PNC_HSIZE_VATTR ltac:(reflexivity)).
   lia.
 Qed.
 
-Example hash_sizes_ok_example :
-  hash_sizes_ok (fst (open_config (Some [(k_hash_dim, B "1"); (k_hash_var, B "2")])
-                                  (Some (B "nc_hash_size_gattr=256")) None None 1)) = true.
+Example hash_sizes_example :
+  let c := fst (open_config (Some [(k_hash_dim, B "1"); (k_hash_var, B "0"); (k_hash_vattr, B "x")])
+                            (Some (B "nc_hash_size_gattr=256")) None None 1) in
+  (c_hash_dim c, c_hash_var c, c_hash_gattr c, c_hash_vattr c) = (1, 256, 256, 8).
 Proof. reflexivity. Qed.
+
+(* the code before the fix: only negative values were rejected *)
+Definition hash_hint_old (ui : option info) (k : list byte) (dflt : Z) : Z :=
+  match uget ui k with
+  | None => dflt
+  | Some v => let x := atoi v in if x <? 0 then dflt else x
+  end.
+
+(* refuted for the old code: a hint value of 0 passed the `< 0` test and became the table size;
+   calloc(0) and the mask (0 - 1) followed (heap overrun in ncmpio_hash_insert, seen under ASan) *)
+Theorem hash_sizes_old_refuted :
+  ~ (forall ui k dflt, 0 < dflt -> 0 < hash_hint_old ui k dflt).
+Proof.
+  intros H. specialize (H (Some [(k_hash_dim, B "0")]) k_hash_dim 256 ltac:(lia)).
+  vm_compute in H. discriminate.
+Qed.
